@@ -122,16 +122,16 @@ TRIPLE = st.tuples(
     st.sampled_from([0, 1, 2, 2015, 2016, 2017, 2100, 5000, 10 ** 12]),
     st.sampled_from([0, 0, N_BLOCKS, N_BLOCKS - 1, 2100, 2016, N_BLOCKS + 1])).map(list)
 
-CASE = st.builds(lambda ms, triples, scripts, push, meta: {'max_send': ms, 'triples': triples,
-                                                          'scripts': scripts, 'push': push,
-                                                          'meta': meta},
+CASE = st.builds(lambda ms, triples, scripts, push, meta, pop: {'max_send': ms, 'triples': triples,
+                                                               'scripts': scripts, 'push': push,
+                                                               'meta': meta, 'pop': push and pop},
                  st.integers(0, len(MAX_SENDS) - 1),
                  st.lists(TRIPLE, min_size=2, max_size=8),
                  st.lists(st.integers(0, len(BIG) - 1), min_size=2, max_size=6, unique=True),
                  st.booleans(),
                  # physical meta files of 2.5 headers / tx counts / 3.1 tx hashes (node.META_SIZES):
                  # every multi-header read straddles files, as one across height 200,000 does
-                 st.sampled_from([0, 0, 1]))
+                 st.sampled_from([0, 0, 1]), st.booleans())
 
 
 def run_case(scratch, case):
@@ -282,6 +282,32 @@ def _run_case(scratch, case):
                                     f'script with {len(full)} entries (limit {limit}): the '
                                     f'notification after the new block did not carry the full '
                                     f'history\'s status')
+                    # ---- ... and a reorganisation takes that block away again ------------------
+                    if case.get('pop'):
+                        info['classes'].add('reorg_brings_history_back_under_limit' if at_edge
+                                            else 'reorg_shortens_history')
+                        world.light = False
+                        try:
+                            world.fork(1, [{'cb': [[0, 0]], 'nonce': 5 + k, 'coll': None, 'txs': []}
+                                           for k in range(2)])
+                        finally:
+                            world.light = True
+                        await server.quiesce(timeout=2000)
+                        for i in targets:
+                            sh = W.scripthash_hex(BIG[i])
+                            want = [{'tx_hash': W.hexrev(t), 'height': h} for t, h in hist[i]]
+                            for rep in range(2):
+                                r = await c.call('blockchain.scripthash.get_history', [sh])
+                                if r.get('result') != want:
+                                    return failure.append(
+                                        f'get_history after a reorganisation took the script back '
+                                        f'to {len(want)} entries (limit {limit}), call #{rep + 1}: '
+                                        f'{str(r)[:120]}')
+                            r = await c.call('blockchain.scripthash.subscribe', [sh])
+                            if r.get('result') != status_of(hist[i]):
+                                return failure.append(
+                                    f'subscribe after a reorganisation took the script back to '
+                                    f'{len(want)} entries (limit {limit}): {str(r)[:120]}')
         finally:
             try:
                 await server.stop()
